@@ -170,6 +170,15 @@ theorem a3_rotate_about_fixes (p u : Vec3 α) (r : α) :
   simp only [gen_simp, ofFieldT_ofNat, Lin3.mk.injEq, Vec3.mk.injEq]; norm_num
   refine ⟨?_, ?_, ?_⟩ <;> ring
 
+/-- 2D rotation about the point `p`: the linear part is rotate(r) and `p` is a fixed point -/
+theorem a2_rotate_about_fixes (p : Vec2 α) (r : α) :
+    (@a2_rotate_about α 𝔽 p r).l = @l2_rotate α 𝔽 r ∧
+    (@l2_apply α 𝔽 (@a2_rotate_about α 𝔽 p r).l p).x + (@a2_rotate_about α 𝔽 p r).p.x = p.x ∧
+    (@l2_apply α 𝔽 (@a2_rotate_about α 𝔽 p r).l p).y + (@a2_rotate_about α 𝔽 p r).p.y = p.y := by
+  obtain ⟨px, py⟩ := p
+  simp only [gen_simp, ofFieldT_ofNat, Lin2.mk.injEq, Vec2.mk.injEq]; norm_num
+  refine ⟨?_, ?_⟩ <;> ring
+
 /-! ## rotate(axis,angle) is a proper rotation about that axis by that angle -/
 
 /-- the 3×3 matrix of the code for a *unit* axis (x,y,z) and sin/cos values (s,c) -/
